@@ -5,7 +5,7 @@ from .. import AnalysisError
 from ..report import Ob
 from ..cfg import calls_at, call_attr, is_self_attr
 from ..state import Analysis, State, TOP, is_token
-from ..norm import Normalizer, cmp_norm, FrameEnv
+from ..norm import Normalizer, cmp_norm, FrameEnv, ctext, subst
 from .. import inventory as inv
 from .. import devices as dv
 from .c02 import foreign_deleg_call
@@ -71,8 +71,12 @@ def check(ctx):
         for cl in calls_at(an.g, n):
             if call_attr(cl) in ('append', 'insert') and is_self_attr(cl.func.value, '_value_history'):
                 t = cl.args[0] if cl.args and call_attr(cl) == 'append' else None
-                good = isinstance(t, ast.Tuple) and len(t.elts) == 4 and ast.unparse(t.elts[0]) == lp and N.norm(t.elts[1]).is_({'NOW': 1}) \
-                    and ast.unparse(t.elts[2]) == vp and ast.unparse(t.elts[3]) in ('self._value', 'self.value') and 'changed' in st.flags
+                env_ = FrameEnv(n.frame)
+                if isinstance(t, ast.Name):
+                    r_ = env_.resolve(t.id)
+                    t = r_[0] if r_ else t
+                good = isinstance(t, ast.Tuple) and len(t.elts) == 4 and ctext(t.elts[0], env_) == lp and N.norm(t.elts[1], env_).is_({'NOW': 1}) \
+                    and ctext(t.elts[2], env_) == vp and ctext(t.elts[3], env_) in ('self._value', 'self.value') and 'changed' in st.flags
                 st = st.with_flag(('logged2' if 'logged' in st.flags else 'logged') if good else 'logged-wrong')
         return st
     an = Analysis(P, g, [])
@@ -94,14 +98,14 @@ def check(ctx):
                        '(value += change once, then one history entry (label, now, change, new total))', file=A.mod.path, line=fn.lineno, path=res.path_lines(g.exit, st))
     for s in inv.attr_stores(P, '_value'):
         o.count()
-        if not (s.cls is A and s.func.name in ('__init__', 'initialize', 'add_value')):
+        if not (s.cls is A and s.func.name in inv.covered(P, {'__init__', 'initialize', 'add_value'})):
             o.fail(P, s.ctx, s.stmt, 'an asset value is written outside Asset.__init__/initialize/add_value', file=s.mod.path, line=s.line)
         else:
             o.witness(('value-writer', s.func.name))
     for s in inv.attr_uses(P, '_value_history'):
         role = s.extra['role']
         o.count()
-        okh = (role[0] == 'store' and s.cls is A and s.func.name in ('__init__', 'initialize')) or (role[0] == 'method' and role[1] == 'append' and s.cls is A and s.func.name == 'add_value') \
+        okh = (role[0] == 'store' and s.cls is A and s.func.name in ('__init__', 'initialize')) or (role[0] == 'method' and role[1] == 'append' and s.cls is A and s.func.name in inv.covered(P, {'add_value'})) \
             or role[0] in ('return', 'iter', 'test', 'subscript-load') or (role[0] == 'method' and role[1] == 'copy')
         if not okh:
             o.fail(P, s.ctx, s.stmt, f'the value history is changed outside add_value ({role[0]})', file=s.mod.path, line=s.line)
@@ -247,7 +251,7 @@ def check(ctx):
         for s in inv.method_calls(P, 'add_cost') + inv.method_calls(P, 'add_value'):
             if s.cls is M:
                 o.count()
-                if s.func.name != '_start_work_order':
+                if s.func.name not in inv.covered(P, {'_start_work_order'}):
                     o.fail(P, s.ctx, s.node, 'the maintainer changes its value outside the start of an order', file=s.mod.path, line=s.line)
 
     # ---- C16.6 batch and system -----------------------------------------------------------------------------------
